@@ -23,8 +23,9 @@ COQ_HEADER = 'From FV Require Import Common.Bytes Model.C08_Model.\nLocal Open S
 COQ_AGREE = 'C08_agree'
 COQ_MODEL_TARGETS = ['Model/C08_Model']
 RULE = ('random logical datasets of 0..6 clients with adversarial ids (empty id, trailing zero bytes, mutual prefixes, '
-        '0xff bytes), tables of 0..4 rows, random operation sequences of length 0..6 (nested / empty / inverted '
-        'slices, subsets incl. refused and duplicate ids, 5 client and 2 batch preprocessor kinds), 4 pipelines; '
+        '0xff bytes, b\'\' as id and as bound), tables of 0..4 rows, random operation sequences of length 0..6 (nested / empty / inverted '
+        'slices, subsets incl. refused and duplicate ids, 5 client and 2 batch preprocessor kinds), 4 pipelines (SQLite opened by .new() and by the '
+        'direct constructor), every view through every access path plain and interleaved, shuffled passes replayed exactly from the recorded RandomState; '
         'non-trivial = at least one operation and at least one client; distinct = distinct case JSON')
 TRUSTED = ['SQLite BLOB comparison = memcmp then length (the Bytes order) and ORDER BY rowid = insertion order '
            '(exercised on every case, not modelled below the WHERE predicate)',
@@ -32,6 +33,8 @@ TRUSTED = ['SQLite BLOB comparison = memcmp then length (the Bytes order) and OR
            'numpy arithmetic on small int64 values',
            'tools/anchors/federated_data.py: bytes / Optional[bytes] extension of the translator and its SQL-predicate parser']
 ASSUMPTIONS = ['client ids of the logical dataset are distinct (they are dict keys / a PRIMARY KEY)',
+               'shuffled pass: buffer_size >= 1 and every rng.randint(buffer_size) draw d satisfies -buffer_size <= d (NumPy: 0 <= d < buffer_size; asserted on every recorded draw)',
+               'dict(examples) and assert_consistent_rows(out) inside the preprocessor __call__s are identities on the modelled family',
                'preprocessing functions are pure (the indexed family: x+k, x*k, x+sum(id), duplicate rows, drop first row)',
                'a python set is modelled as a duplicate-free list: only membership and sorted() are ever applied to it',
                'the in-memory dict is modelled as an association list: all iteration goes through sorted(keys)']
@@ -196,7 +199,7 @@ def _fixed_cases():
 def generate(tier, rng):
   if tier != 'search':
     yield from _fixed_cases()
-  n = {'quick': 340, 'thorough': 2400, 'search': 4000}[tier]
+  n = {'quick': 280, 'thorough': 2400, 'search': 4000}[tier]
   for _ in range(n):
     yield gen_case(rng)
 
@@ -707,7 +710,7 @@ def encode(case, obs):
   for p in PIPES:
     todo = [(k, obs['views'][p][k], 2) for k in sorted({min(case.get('mid', 0), nops), nops})]
     it = obs['views'][p][nops].get('inter')
-    if it is not None:
+    if it is not None and p in ('sql', 'submem'):   # (the oracle judges all four; Coq re-evaluates two to keep the shard small)
       # the final view once more with its INTERLEAVED iterations in place of the plain ones (one shuffled pass)
       o2 = dict(obs['views'][p][nops])
       o2['clients'] = it['clients']
